@@ -10,7 +10,7 @@ def replay_obj(c):
             "tlc": {"clauses": c["clauses"], "flags": c["flags"], "trace": c["trace"], "diag": c["diag"]}}
 
 
-def run(prop, select, clause_ok, nontrivial, rule, assumptions, sample_of=None, replay_case=None):
+def run(prop, select, clause_ok, nontrivial, rule, assumptions, sample_of=None, replay_case=None, extra=None):
     out = Outcome(prop)
     if replay_case is not None:
         cases = stage_glr.judge_replay(replay_case)
@@ -40,6 +40,8 @@ def run(prop, select, clause_ok, nontrivial, rule, assumptions, sample_of=None, 
         for cl in c["clauses"]:
             if clause_ok(cl, c):
                 out.fail(cl, c["name"], replay_obj(c), origin=c["origin"], facts=facts)
+    if extra and replay_case is None:
+        extra(out)
     out.assumptions = assumptions
     return out.finish(extra_cov={"rule": rule, "trace_events": actions, "build_errors": len(st["build_errors"]),
                                  "exhaustive": False})
@@ -88,7 +90,30 @@ def c03(replay_case=None):
     )
 
 
+def _lr_prefix(out):
+    """the LR half of C17: whatever Parser(consume_input=False) returns is a valid derivation of a sentence prefix"""
+    from . import props_lr, stage_lr
+
+    r = stage_lr.get(tier(), seed())
+    out.cov["states"] += r["stats"]["states"]
+    out.cov["transitions"] += r["stats"]["generated"]
+    for c in r["cases"]:
+        if c["consume"] or not c["built"]:
+            continue
+        out.count()
+        if c["lr"]["kind"] == "tree" and len(c["input"]) >= 1:
+            out.nontrivial("lr:" + c["name"])
+        for cl in c["clauses"]:
+            if cl.startswith("C04:accepts-nonsentence") or cl.startswith("C04:invalid-tree") or cl.startswith("C04:does-not-terminate"):
+                out.fail(cl, c["name"], props_lr.replay_obj(c), origin=c["origin"])
+
+
 def c17(replay_case=None):
+    if replay_case is not None and replay_case.get("kind") == "lr-case":
+        from . import props_lr
+
+        return props_lr.run("C17", select=lambda c: True, clause_ok=lambda cl, c: cl.startswith("C04:"), nontrivial=lambda c: True,
+                            rule="replay", assumptions=[], replay_case=replay_case)
     return run(
         "C17",
         select=lambda c: not c["consume"],
@@ -98,4 +123,5 @@ def c17(replay_case=None):
              "ending at a token boundary; non-trivial = some non-empty-input prefix is a sentence",
         assumptions=[LATTICE_ASSUMPTION, EQUAL_PRIOR],
         replay_case=replay_case,
+        extra=_lr_prefix,
     )
